@@ -25,17 +25,11 @@ Theorem C11_after_dot :
        exists e mem, nearest_member ws d l = Some (e, mem) /\ m_name mem = l /\ is_fpf mem = true).
 Proof. exact complete_after_dot_spec. Qed.
 
-(* ... as the service performs it from inside method m of class c: another class's table is used
-   as it is; for the ENCLOSING class the method's table is in front, which changes nothing as long
-   as no variable of the method is named like a listed symbol (see C11_after_dot_refuted_local) *)
-Theorem C11_after_dot_other_class :
-  forall ws c m d, ci_eqb d c = false -> completion_member ws c m d = complete_after_dot ws d.
-Proof. exact completion_member_other. Qed.
-
-Theorem C11_after_dot_own_class :
-  forall ws c m, vars_apart ws c m (collect (class_chain ws c)) ->
-    completion_member ws c m c = complete_after_dot ws c.
-Proof. exact completion_member_own. Qed.
+(* ... as the service performs it from inside method m of ANY class c, the enclosing class
+   included (fix 945552f: the class-level table above the cursor's nearest table) *)
+Theorem C11_after_dot_in_context :
+  forall ws c m d, completion_member ws c m d = complete_after_dot ws d.
+Proof. exact completion_member_spec. Qed.
 
 (* elsewhere in the body of method m of class c: exactly the method's parameters and local
    variables (latest declaration of a name) plus the names whose nearest declaration in c and its
@@ -68,10 +62,11 @@ Example C11_after_dot_nonvacuous :
   (* aLeaf's Fb, Run; aMid's FA (hides aBase's Fa), cA (a FIELD in aMid: hides aBase's constant), Ga; aBase's Link *)
   complete_after_dot ws3 s_aLeaf = [s_Fb; s_Run; s_FA; s_cA; s_Ga; s_Link] /\
   completion_member ws3 s_aMid (Some s_Ga) s_aLeaf = complete_after_dot ws3 s_aLeaf /\
-  ci_eqb s_aLeaf s_aMid = false.
+  (* `self.` inside aLeaf.Run(Fa : int4) with `var Fb`: FA and Fb are offered *)
+  completion_member ws3 s_aLeaf leaf_run s_aLeaf = [s_Fb; s_Run; s_FA; s_cA; s_Ga; s_Link].
 Proof.
-  destruct ws3_after_dot as (H1 & _ & H3). destruct ws3_clean as (C1 & _).
-  split; [exact C1|]. split; [exact H1|]. split; [rewrite H3, H1; reflexivity|reflexivity].
+  destruct ws3_after_dot as (H1 & H2 & H3 & _). destruct ws3_clean as (C1 & _).
+  split; [exact C1|]. split; [exact H1|]. split; [rewrite H3, H1; reflexivity|exact H2].
 Qed.
 
 Example C11_plain_nonvacuous :
@@ -84,48 +79,43 @@ Proof.
 Qed.
 
 Example C11_unknown_type_nonvacuous :
-  static_class ws3 s_aLeaf leaf_run [IId s_self; IId s_Fa] = None /\
+  static_class ws3 s_aLeaf leaf_run [IId s_self; IId s_Fb] = None /\       (* the field Fb : int4 *)
+  static_class ws3 s_aLeaf leaf_run [IId s_Fb] = Some (SClass s_aBase) /\   (* the local Fb : aBase *)
   static_class ws3 s_aLeaf leaf_run [IId s_self; IId s_Link] = Some (SClass s_aLeaf).
-Proof. destruct ws3_static as (H1 & _ & H3 & _). auto. Qed.
+Proof. destruct ws3_static as (H1 & _ & H3 & H4 & _). auto. Qed.
+
+(* regression case of fix 4a7e667: proposals after a call on a module qualifier *)
+Example C11_module_call_nonvacuous :
+  completion_dotted w_modcall s_aUser (Some s_Run) [IId s_aModUtil; ICall s_Make] = [s_Run].
+Proof. vm_compute. reflexivity. Qed.
 
 (* ---- where the code differs from the wording ---- *)
 
-(* after `self.` (or any operand of the ENCLOSING class) the members named like a parameter or
-   local variable of the current method are missing: in aLeaf.Run(Fa : int4) with `var Fb`,
-   `self.` offers neither FA nor Fb *)
-Theorem C11_after_dot_refuted_local :
-  exists ws c m, completion_member ws c m c <> complete_after_dot ws c /\
-                 ~ vars_apart ws c m (collect (class_chain ws c)).
+(* the step before fix 945552f (member_chain_old): after `self.` the members named like a
+   parameter or local variable of the current method were missing *)
+Theorem C11_old_after_dot_refuted_local :
+  exists ws c m, map sid (filter is_member_kind (collect (member_chain_old ws c m c))) <> complete_after_dot ws c.
 Proof.
-  exists ws3, s_aLeaf, leaf_run. destruct ws3_after_dot as (H1 & H2 & _).
-  split; [rewrite H1, H2; discriminate|].
-  intro H. apply (completion_member_own ws3 s_aLeaf leaf_run) in H. rewrite H1, H2 in H. discriminate.
+  exists ws3, s_aLeaf, leaf_run. destruct ws3_after_dot as (H1 & _ & _ & H4). rewrite H1, H4. discriminate.
 Qed.
 
 (* the type of the operand depends on where in the class it is written (forward reference to a
-   method declared later), and a call after a module qualifier has no type: no proposals there *)
+   method declared later): no proposals there *)
 Theorem C11_operand_type_refuted_forward :
   exists ws c m1 m2 p, completion_dotted ws c (Some m1) p = [] /\ completion_dotted ws c (Some m2) p <> [].
 Proof.
   exists w_fwd, s_aNode, s_First, s_Last, [IId s_self; IId s_Later]. split; vm_compute; [reflexivity|discriminate].
 Qed.
 
-Theorem C11_operand_type_refuted_module_call :
-  exists ws c m q f, completion_dotted ws c m [IId q; IId f] <> [] /\ completion_dotted ws c m [IId q; ICall f] = [].
-Proof.
-  exists w_modcall, s_aUser, (Some s_Run), s_aModUtil, s_Make. split; vm_compute; [discriminate|reflexivity].
-Qed.
-
 Print Assumptions C11_after_dot_is_merged_listing.
 Print Assumptions C11_after_dot.
-Print Assumptions C11_after_dot_other_class.
-Print Assumptions C11_after_dot_own_class.
+Print Assumptions C11_after_dot_in_context.
 Print Assumptions C11_plain.
 Print Assumptions C11_unknown_type_empty.
 Print Assumptions C11_unindexed_type_empty.
 Print Assumptions C11_after_dot_nonvacuous.
 Print Assumptions C11_plain_nonvacuous.
 Print Assumptions C11_unknown_type_nonvacuous.
-Print Assumptions C11_after_dot_refuted_local.
+Print Assumptions C11_module_call_nonvacuous.
+Print Assumptions C11_old_after_dot_refuted_local.
 Print Assumptions C11_operand_type_refuted_forward.
-Print Assumptions C11_operand_type_refuted_module_call.
